@@ -142,6 +142,10 @@ drop = z3.RecFunction('drop', VL, IntS, VL)
 z3.RecAddDefinition(drop, [_l, _k], z3.If(z3.Or(VL.is_nil(_l), _k <= 0), _l, drop(VL.tl(_l), _k - 1)))
 
 
+list_set = z3.RecFunction('list_set', VL, IntS, V, VL)        # l[i] = v (0 <= i < length l)
+z3.RecAddDefinition(list_set, [_l, _k, _x], z3.If(VL.is_nil(_l), VL.nil, z3.If(_k <= 0, VL.cons(_x, VL.tl(_l)), VL.cons(VL.hd(_l), list_set(VL.tl(_l), _k - 1, _x)))))
+
+
 def snoc(l, x):
     return app(l, VL.cons(x, VL.nil))
 
@@ -192,6 +196,8 @@ def list_lemmas(terms):
                 out.append(VL.is_nil(e) == z3.And(VL.is_nil(a), VL.is_nil(b)))
                 if z3.is_app(a) and a.decl().name() == 'app':
                     out.append(e == app(a.arg(0), app(a.arg(1), b)))
+            elif n == 'list_set':
+                out.append(length(e) == length(e.arg(0)))
             elif n == 'keys' or n == 'vals':
                 out.append(length(e) == length(e.arg(0)))
             elif n == 'nth':
@@ -204,6 +210,9 @@ def list_lemmas(terms):
                     out.append(length(l.arg(0)) >= 0)
                 elif z3.is_app(l) and l.decl().name() == 'take':
                     out.append(z3.Implies(z3.And(k >= 0, k < l.arg(1)), e == nth(l.arg(0), k)))
+                elif z3.is_app(l) and l.decl().name() == 'list_set':
+                    # nth(list_set(l0, i, v), k) = v if k == i (in range) else nth(l0, k)   (induction on l0)
+                    out.append(z3.Implies(z3.And(l.arg(1) >= 0, l.arg(1) < length(l.arg(0))), e == z3.If(k == l.arg(1), l.arg(2), nth(l.arg(0), k))))
                 elif z3.is_app(l) and l.decl().name() == 'app':
                     a, b = l.arg(0), l.arg(1)
                     out.append(z3.Implies(z3.And(k >= 0, k < length(a)), e == nth(a, k)))
@@ -223,6 +232,13 @@ def list_lemmas(terms):
                     out.append(z3.If(l.arg(1) == k, e == l.arg(2), e == lookup(l.arg(0), k)))
                 if z3.is_app(l) and l.decl().name() == 'app':
                     out.append(e == z3.If(lookup(l.arg(0), k) != V.Missing, lookup(l.arg(0), k), lookup(l.arg(1), k)))
+                if z3.is_app(l) and l.decl().name() == 'take' and depth < 1:
+                    # lookup in a prefix one longer: the shorter prefix first, then the added entry (induction on the list)
+                    l0, a = l.arg(0), l.arg(1)
+                    prev = lookup(take(l0, a - 1), k)
+                    out.append(z3.Implies(z3.And(a > 0, a <= length(l0)),
+                                          e == z3.If(prev != V.Missing, prev, z3.If(V.fst(nth(l0, a - 1)) == k, V.snd(nth(l0, a - 1)), V.Missing))))
+                    out.append(z3.Implies(a <= 0, e == V.Missing))
             elif n == 'take':
                 l0 = e.arg(0)
                 if z3.is_app(l0) and l0.decl().name() == 'take':
@@ -245,8 +261,7 @@ def list_lemmas(terms):
             if depth < 2:
                 # lemma instances mention new list terms: instantiate for those too (bounded depth)
                 stack.extend((f, depth + 1) for f in out[n_before:])
-        elif z3.is_quantifier(e):
-            stack.append((e.body(), depth))
+        # quantifier bodies are not visited: their terms contain bound variables
     return out
 
 
@@ -382,9 +397,35 @@ def _rec_decls(x):
     return hit[1]
 
 
+_Q_CACHE = {}
+
+
+def _has_quantifier(x):
+    k = x.get_id()
+    hit = _Q_CACHE.get(k)
+    if hit is None:
+        found = False
+        seen, stack = set(), [x]
+        while stack and not found:
+            e = stack.pop()
+            if e.get_id() in seen:
+                continue
+            seen.add(e.get_id())
+            if z3.is_quantifier(e):
+                found = True
+            elif z3.is_app(e):
+                stack.extend(e.children())
+        hit = (x, found)
+        _Q_CACHE[k] = hit
+    return hit[1]
+
+
 def abstract_recs(exprs):
     """replace every recursive function by an uninterpreted twin: the result is implied-weaker (fewer facts), so
     `unsat` of the abstracted query implies `unsat` of the original one, and `sat`/`unknown` decide nothing."""
+    # formulas with quantifiers are left out (substitution templates would clash with bound variables): dropping constraints only
+    # weakens the query, so `unsat` stays sound
+    exprs = [x for x in exprs if not _has_quantifier(x)]
     decls = {}
     for x in exprs:
         decls.update(_rec_decls(x))
@@ -430,6 +471,9 @@ class ForallList:
             out = [z3.Implies(VL.is_nil(l), e)]
             if z3.is_app(l) and l.decl().name() == 'app':
                 out.append(e == z3.And(self.fn(l.arg(0), *ps), self.fn(l.arg(1), *ps)))
+            if z3.is_app(l) and l.decl().name() == 'list_set':
+                # overwriting one position keeps the predicate when the new element satisfies it (induction on the list)
+                out.append(z3.Implies(z3.And(self.fn(l.arg(0), *ps), self.pred(l.arg(2), *ps)), e))
             if z3.is_app(l) and l.decl().name() == 'assoc_set':
                 # replacing or appending one entry keeps the predicate when the new entry satisfies it (induction on the list)
                 out.append(z3.Implies(z3.And(self.fn(l.arg(0), *ps), self.pred(V.Pair(l.arg(1), l.arg(2)), *ps)), e))
